@@ -121,19 +121,26 @@ impl EvalString<&str> {
 }
 
 /// A single scope's worth of variable definitions.
+/// Keys are normally borrowed from the text being parsed; bindings carried
+/// over from an included file own their key because that file's text does
+/// not live as long as the including scope.
 #[derive(Debug, Default)]
-pub struct Vars<'text>(FxHashMap<&'text str, String>);
+pub struct Vars<'text>(FxHashMap<Cow<'text, str>, String>);
 
 impl<'text> Vars<'text> {
     pub fn insert(&mut self, key: &'text str, val: String) {
-        self.0.insert(key, val);
+        self.0.insert(Cow::Borrowed(key), val);
+    }
+
+    pub fn insert_owned(&mut self, key: String, val: String) {
+        self.0.insert(Cow::Owned(key), val);
     }
 
     pub fn get(&self, key: &str) -> Option<&String> {
         self.0.get(key)
     }
 
-    pub fn get_all(&self) -> &FxHashMap<&'text str, String> {
+    pub fn get_all(&self) -> &FxHashMap<Cow<'text, str>, String> {
         &self.0
     }
 }
